@@ -67,7 +67,8 @@ def coq_sources():
 def build_coq():
     """Full .vo build through coq_makefile (never -vos); rebuilds only what is stale."""
     with Lock("coq"):
-        if not os.path.exists(os.path.join(COQ, "Makefile")):
+        mk, prj = os.path.join(COQ, "Makefile"), os.path.join(COQ, "_CoqProject")
+        if not os.path.exists(mk) or os.path.getmtime(mk) < os.path.getmtime(prj):
             run(["coq_makefile", "-f", "_CoqProject", "-o", "Makefile"], cwd=COQ)
         run(["timeout", "1800", "make", "-j16"], cwd=COQ, timeout=2000)
         # extracted model -> native driver
